@@ -271,7 +271,7 @@ func runC03(c *core.Ctx) error {
 	files := map[string][]byte{}
 	if c.Thorough() {
 		cfg = "JsonGen_thorough.cfg"
-		files[cfg] = []byte("SPECIFICATION Spec\nCONSTANTS\n  MaxTokens = 7\n  MaxDepth = 3\n  Scalars = {1, 2, 4, 5, 6, 9, 10, 12, 13, 14, 15, 16, 17, 18, 19, 20}\n  Keys = {1, 3, 4, 5, 6, 7, 8, 10, 11}\nINVARIANTS TypeOK Balanced NoDanglingKey Emit\nCHECK_DEADLOCK FALSE\n")
+		files[cfg] = []byte("SPECIFICATION Spec\nCONSTANTS\n  MaxTokens = 7\n  MaxDepth = 3\n  Scalars = {1, 2, 4, 5, 6, 9, 10, 12, 13, 14, 15, 16, 17, 18, 19, 20, 21}\n  Keys = {1, 3, 4, 5, 6, 7, 8, 10, 11, 12, 13}\nINVARIANTS TypeOK Balanced NoDanglingKey Emit\nCHECK_DEADLOCK FALSE\n")
 	}
 	var docs [][]jgTok
 	res, err := tlc.Run(tlc.Opts{Module: "JsonGen", Cfg: cfg, Workers: 16, Files: files, Timeout: 0, HeapGB: 12, OnLine: func(l string) {
